@@ -98,11 +98,40 @@ pub fn guarded<T>(f: impl FnOnce() -> T) -> std::thread::Result<T> {
     r
 }
 
+/// The mutator actor's state, shared with filter closures (for in-flight triggers).
+pub struct Mutator {
+    pub root: PathBuf,
+    pub root_text: String,
+    pub mutations: Vec<Mutation>,
+    pub applied: Vec<bool>,
+    pub triggers: Vec<Trigger>,
+}
+
+impl Mutator {
+    pub fn apply(&mut self, mi: usize, log: &Log) {
+        if mi >= self.mutations.len() || self.applied[mi] {
+            return;
+        }
+        self.applied[mi] = true;
+        let world = World {
+            root: self.root.clone(),
+            root_text: self.root_text.clone(),
+        };
+        let result = world.mutate(&self.mutations[mi], mi);
+        log.borrow_mut().push(Ev::Mut {
+            i: mi,
+            path: self.mutations[mi].path.clone(),
+            result,
+        });
+    }
+}
+
 #[derive(Clone)]
 pub struct Ctx {
     pub w: usize,
     pub log: Log,
     pub root_text: Rc<String>,
+    pub mutator: Rc<RefCell<Mutator>>,
 }
 
 impl Ctx {
@@ -313,6 +342,16 @@ fn fe_closure(
             ft: ft_char(e.file_type()),
             verdict,
         });
+        // in-flight triggers: the mutator strikes while this item is inside the stack
+        if let Some(wp) = to_world(&ctx.norm(e.path()), &cwd) {
+            let hits: Vec<usize> = {
+                let m = ctx.mutator.borrow();
+                m.triggers.iter().filter(|t| t.w == ctx.w && t.path == wp).map(|t| t.mutation).collect()
+            };
+            for mi in hits {
+                ctx.mutator.borrow_mut().apply(mi, &ctx.log);
+            }
+        }
         match verdict {
             Verdict::Keep => None,
             Verdict::File => Some(EntryResidue::File),
@@ -527,12 +566,14 @@ pub fn build_walker(
     wi: usize,
     world: &World,
     log: &Log,
+    mutator: &Rc<RefCell<Mutator>>,
 ) -> Result<BoxIt, String> {
     let w = &sc.walkers[wi];
     let ctx = Ctx {
         w: wi,
         log: log.clone(),
         root_text: Rc::new(world.root_text.clone()),
+        mutator: mutator.clone(),
     };
     if w.layers.len() > MAX_LAYERS {
         return Err("too many layers".to_string());
@@ -582,9 +623,16 @@ pub fn execute(sc: &Scenario, world: &World, budget: &[usize]) -> Run {
             build_error: Some(format!("chdir {:?}: {}", cwd_abs, e)),
         };
     }
+    let mutator = Rc::new(RefCell::new(Mutator {
+        root: world.root.clone(),
+        root_text: world.root_text.clone(),
+        mutations: sc.mutations.clone(),
+        applied: vec![false; sc.mutations.len()],
+        triggers: sc.triggers.clone(),
+    }));
     let mut its: Vec<Option<BoxIt>> = Vec::new();
     for wi in 0..sc.walkers.len() {
-        match guarded(|| build_walker(sc, wi, world, &log)) {
+        match guarded(|| build_walker(sc, wi, world, &log, &mutator)) {
             Ok(Ok(it)) => its.push(Some(it)),
             Ok(Err(e)) => {
                 return Run {
@@ -602,7 +650,6 @@ pub fn execute(sc: &Scenario, world: &World, budget: &[usize]) -> Run {
         }
     }
     let mut calls = vec![0usize; its.len()];
-    let mut applied = vec![false; sc.mutations.len()];
     let step_walker = |wi: usize, its: &mut Vec<Option<BoxIt>>, calls: &mut Vec<usize>| {
         let Some(it) = its[wi].as_mut()
         else {
@@ -666,14 +713,8 @@ pub fn execute(sc: &Scenario, world: &World, budget: &[usize]) -> Run {
     for step in &sc.schedule {
         match *step {
             Step::W(wi) if wi < its.len() => step_walker(wi, &mut its, &mut calls),
-            Step::M(mi) if mi < sc.mutations.len() && !applied[mi] => {
-                applied[mi] = true;
-                let result = world.mutate(&sc.mutations[mi], mi);
-                log.borrow_mut().push(Ev::Mut {
-                    i: mi,
-                    path: sc.mutations[mi].path.clone(),
-                    result,
-                });
+            Step::M(mi) if mi < sc.mutations.len() => {
+                mutator.borrow_mut().apply(mi, &log);
             },
             _ => {},
         }
